@@ -214,3 +214,63 @@ Theorem C03_body_limit_signalled : forall limit reject process,
   bs_tx s = process (concat (map snd chunks)) t0.
 Proof. exact body_limit_signalled. Qed.
 Print Assumptions C03_body_limit_signalled.
+
+(* multipart/form-data. The partial specification of mime/multipart ([mp_parse], validated by the
+   correspondence run) reads back exactly the parts that were printed, for every part list that
+   satisfies the guard [mp_part_ok]: no CR / LF in names and file names, and the delimiter
+   CRLF "--" boundary occurs in CRLF ++ content ++ delimiter at the end only *)
+Theorem C03_multipart_roundtrip_partial : forall b parts,
+  forallb (mp_part_ok b) parts = true -> mp_parse b (mp_print b parts) = Some parts.
+Proof. exact multipart_roundtrip. Qed.
+Print Assumptions C03_multipart_roundtrip_partial.
+
+(* the processor's loop (multipart.go) over ANY part list: every field is in ARGS_POST byte-exact,
+   every upload in FILES (file name) and FILES_NAMES (form name), FILES_COMBINED_SIZE is the
+   number of content bytes of all parts *)
+Theorem C03_multipart_visible : forall fold parts,
+  let r := mp_collect fold parts in
+  Permutation (cm_find_all (mv_post r)) (mp_fields parts) /\
+  Permutation (cm_find_all (mv_files r)) (map (fun p => ([], mp_filename p)) (mp_uploads parts)) /\
+  Permutation (cm_find_all (mv_files_names r)) (map (fun p => ([], mp_name p)) (mp_uploads parts)) /\
+  mv_combined r = mp_total parts.
+Proof. exact multipart_collect_visible. Qed.
+Print Assumptions C03_multipart_visible.
+
+(* FILES_SIZES holds every upload's size under its file name when no two file names coincide
+   after case folding *)
+Theorem C03_multipart_sizes_visible_partial : forall fold parts,
+  nodup_b (map (fun p => fold (mp_filename p)) (mp_uploads parts)) = true ->
+  cm_find_all (mv_files_sizes (mp_collect fold parts)) = mp_size_entries parts.
+Proof. exact multipart_sizes_visible. Qed.
+Print Assumptions C03_multipart_sizes_visible_partial.
+
+(* end to end for printed bodies *)
+Theorem C03_multipart_body_visible_partial : forall fold b parts,
+  forallb (mp_part_ok b) parts = true ->
+  exists q, mp_parse b (mp_print b parts) = Some q /\
+    let r := mp_collect fold q in
+    Permutation (cm_find_all (mv_post r)) (mp_fields parts) /\
+    Permutation (cm_find_all (mv_files r)) (map (fun p => ([], mp_filename p)) (mp_uploads parts)) /\
+    Permutation (cm_find_all (mv_files_names r)) (map (fun p => ([], mp_name p)) (mp_uploads parts)) /\
+    mv_combined r = mp_total parts.
+Proof. exact multipart_body_visible. Qed.
+Print Assumptions C03_multipart_body_visible_partial.
+
+(* Content-Type: multipart/form-data... (any case, any parameters) selects the MULTIPART processor *)
+Theorem C03_multipart_ct_selected : forall fold cookie_ord ct,
+  is_prefix dc_ct_multipart (lower_ascii ct) = true ->
+  select_processor (v_rbp (add_request_header fold cookie_ord txv_empty (str "Content-Type"%string) ct)) = PMultipart.
+Proof. exact multipart_ct_selected. Qed.
+Print Assumptions C03_multipart_ct_selected.
+
+(* the guard accepts quotes, semicolons, backslashes in names, CRLF and "--" inside contents; it
+   rejects a content that starts with "--" boundary *)
+Example C03_multipart_guard_example :
+  forallb (mp_part_ok (str "XbX"%string))
+    [mk_mpart (str "q""uote;semi\back"%string) [] (str "--XbX"%string ++ [13; 10; 45; 45]%N ++ str "Xb"%string);
+     mk_mpart (str "up"%string) (str "C:\dir\e"".php"%string) ([13; 10]%N ++ str "-- line"%string ++ [0; 255]%N)] = false
+  /\
+  forallb (mp_part_ok (str "XbX"%string))
+    [mk_mpart (str "q""uote;semi\back"%string) [] (str "x--XbX"%string ++ [13; 10; 45; 45]%N ++ str "Xb"%string);
+     mk_mpart (str "up"%string) (str "C:\dir\e"".php"%string) ([13; 10]%N ++ str "-- line"%string ++ [0; 255]%N)] = true.
+Proof. exact multipart_guard_example. Qed.
